@@ -146,6 +146,16 @@ class C16(Prop):
             solve["_expect"] = "twin"
             plan["twin"] = b.ops + [twin]
             ops.append(solve)
+            if kind == 1 or (kind == 0):
+                # the solver call that fails is the second one: no solve of this model has succeeded, accessors
+                # must still raise
+                plan["state"] = "second-phase-failed"
+                for o, kd in accessor_ops(b, rng, with_generated=True):
+                    o = dict(o)
+                    if kd:
+                        o["_kind"] = kd
+                        o["_only_if_solve_failed"] = True
+                    ops.append(o)
             plan["tag"] = "twin/%d/%s" % (kind, transport)
         elif case == "options":
             kind = (idx // 7) % 4
@@ -211,8 +221,13 @@ class C16(Prop):
             cells[k] = cells.get(k, 0) + 1
         outs = r.get("outcomes") or []
         had_success = False
+        solve_raised = False
+        last_script, last_transport = None, "?"
         for i, (op, out) in enumerate(zip(plan["ops"], outs)):
             if op["op"] == "solve":
+                solve_raised = out.get("status") == "exc"
+                last_script = (op.get("peer") or {}).get("script")
+                last_transport = (out.get("transports") or ["?"])[0]
                 exp = op.get("_expect")
                 val = out.get("value")
                 if out.get("status") == "ok" and val is not None:
@@ -260,6 +275,22 @@ class C16(Prop):
                                  "detail": {"args": {k: v for k, v in op["args"].items() if not str(v).startswith("@")}}})
             elif op.get("_kind") and not had_success:
                 if out.get("status") == "skipped":
+                    continue
+                if op.get("_only_if_solve_failed"):
+                    if not solve_raised:
+                        continue
+                    # the first solver call succeeded, a later call of the dimension reduction failed and solve
+                    # raised: the multipliers of problem 1 are a legitimate certificate (C14), so dual accessors
+                    # and dual tables are not judged; primal values must not be readable (no returned instance)
+                    if op["op"] != "eval":
+                        continue
+                    judged += 1
+                    if out.get("status") == "ok" and not out.get("leafless"):
+                        sc = last_script or {}
+                        act = "+".join(sorted(set(v.get("action", "?") for v in sc.values())))
+                        viol.append({"oracle": "O-ERR", "signature": "primal-values-readable-after-failed-second-phase:%s:%s" % (
+                            last_transport, act), "detail": {"kind": op["_kind"], "script": sc,
+                                                             "value": str(out.get("value"))[:80]}})
                     continue
                 judged += 1
                 kind = op["_kind"]
